@@ -207,7 +207,13 @@ class Check:
         if r["ok"] and not bad_axioms and not audit:
             self.cov["discharged"] = nthm
             if (leanchecker if leanchecker is not None else not self.quick):
-                mods = [f"Bptk.Gen.{self.pid}", f"Bptk.Props.{self.pid}", f"Bptk.Core.{self.pid}"]
+                mods = [f"Bptk.Gen.{self.pid}", f"Bptk.Props.{self.pid}"]
+                if os.path.exists(os.path.join(LEAN, "Bptk", "Core", f"{self.pid}.lean")):
+                    mods.append(f"Bptk.Core.{self.pid}")
+                for s_ in extra_sources:
+                    m_ = s_[:-5].replace("/", ".")
+                    if m_.startswith("Bptk.") and m_ not in mods and os.path.exists(os.path.join(LEAN, s_)):
+                        mods.append(m_)
                 t = time.time()
                 p = subprocess.run(["lake", "env", "leanchecker"] + mods, cwd=LEAN, capture_output=True, text=True)
                 self.notes["leanchecker"] = {"rc": p.returncode, "wall_s": round(time.time() - t, 1),
